@@ -9,31 +9,56 @@ it appended to `rolledback` that carry the identity of the escaping exception ar
 the frames of `excStack` above the caller's stack, innermost first – entries of exceptions
 that formulas handled carry older identities.
 
-`Proper` excludes one ill-formed behaviour: re-raising "the callee's exception" when no call
-has just failed.
+`Proper` excludes one ill-formed behaviour: re-raising "the exception received from a callee"
+when the running formula has not received one (`ProperL live`: `reraise` is allowed only after a
+call of this formula has failed; between that failure and the `reraise` the formula may make
+further calls - an `except …: audit(x); raise` or a `finally:` block - because a call that returns
+leaves the caller's exception as it was, `keepExc`).
+
+Identities: `excCount` counts the exception objects created; `curExc` is the one that is
+propagating.  `TrL live s s'`: a computation from `s` to `s'` appended to `rolledback` only entries
+with identities created meanwhile, and – when `live` – the exception `s'.curExc` was created
+meanwhile and its entries are exactly the frames of `excStack` above the stack of `s`.
 -/
 namespace MxModel.Exec
 
-def Proper : Prog → Prop
+def ProperL (live : Bool) : Prog → Prop
   | .ret _ => True
   | .raise _ => True
-  | .reraise _ => False
-  | .read _ _ k => ∀ v, Proper (k v)
-  | .call _ k => (∀ v, Proper (k (.ok v))) ∧ (∀ e, k (.err e) = .reraise e ∨ Proper (k (.err e)))
+  | .reraise _ => live = true
+  | .read _ _ k => ∀ v, ProperL live (k v)
+  | .call _ k => (∀ v, ProperL live (k (.ok v))) ∧ (∀ e, ProperL true (k (.err e)))
+
+def Proper (p : Prog) : Prop := ProperL false p
+
+theorem ProperL.mono : ∀ (p : Prog), ProperL false p → ProperL true p := by
+  intro p
+  induction p with
+  | ret v => intro _; trivial
+  | raise e => intro _; trivial
+  | reraise e => intro _; rfl
+  | read a r k ih => intro h v; exact ih _ (h v)
+  | call n k ih => intro h; exact ⟨fun v => ih _ (h.1 v), h.2⟩
+
+theorem ProperL.of (live : Bool) (p : Prog) (h : ProperL live p) : ProperL true p := by
+  cases live with
+  | true => exact h
+  | false => exact ProperL.mono p h
 
 structure SameExc (s s' : St) : Prop where
   stack : s'.stack = s.stack
   rolledback : s'.rolledback = s.rolledback
   curExc : s'.curExc = s.curExc
+  excCount : s'.excCount = s.excCount
   excStack : s'.excStack = s.excStack
 
-theorem SameExc.refl (s : St) : SameExc s s := ⟨rfl, rfl, rfl, rfl⟩
+theorem SameExc.refl (s : St) : SameExc s s := ⟨rfl, rfl, rfl, rfl, rfl⟩
 theorem SameExc.trans {a b c : St} (h1 : SameExc a b) (h2 : SameExc b c) : SameExc a c :=
   ⟨h2.stack.trans h1.stack, h2.rolledback.trans h1.rolledback, h2.curExc.trans h1.curExc,
-   h2.excStack.trans h1.excStack⟩
+   h2.excCount.trans h1.excCount, h2.excStack.trans h1.excStack⟩
 
 theorem sameExc_addNode (s : St) (a : GNode) : SameExc s (s.addNode a) := by
-  unfold St.addNode; split <;> exact ⟨rfl, rfl, rfl, rfl⟩
+  unfold St.addNode; split <;> exact ⟨rfl, rfl, rfl, rfl, rfl⟩
 
 theorem sameExc_addEdge (s : St) (a b : GNode) : SameExc s (s.addEdge a b) := by
   unfold St.addEdge
@@ -41,7 +66,7 @@ theorem sameExc_addEdge (s : St) (a b : GNode) : SameExc s (s.addEdge a b) := by
   simp only []
   split
   · exact h
-  · exact ⟨h.stack, h.rolledback, h.curExc, h.excStack⟩
+  · exact ⟨h.stack, h.rolledback, h.curExc, h.excCount, h.excStack⟩
 
 theorem sameExc_hitEdge (s : St) (n : Node) : SameExc s (s.hitEdge n) := by
   unfold St.hitEdge; split
@@ -49,7 +74,7 @@ theorem sameExc_hitEdge (s : St) (n : Node) : SameExc s (s.hitEdge n) := by
   · exact SameExc.refl s
 
 theorem sameExc_noteRead (s : St) (a : Bool) (r : RefId) : SameExc s (s.noteRead a r) := by
-  unfold St.noteRead; split <;> exact ⟨rfl, rfl, rfl, rfl⟩
+  unfold St.noteRead; split <;> exact ⟨rfl, rfl, rfl, rfl, rfl⟩
 
 theorem sameExc_popEdge (env : Env) (s : St) (n : Node) : SameExc s (s.popEdge env n) := by
   unfold St.popEdge
@@ -59,101 +84,167 @@ theorem sameExc_popEdge (env : Env) (s : St) (n : Node) : SameExc s (s.popEdge e
     · exact sameExc_addNode _ _
     · exact SameExc.refl _
 
-/-- ids of the entries a computation appended lie in `(before, after]` -/
+/-- the entries of a roll-back suffix that carry identity `x` -/
 def chainOf (suffix : List (Node × Nat)) (x : Nat) : List Node :=
   (suffix.filter (fun e => e.2 == x)).map (·.1)
-
-structure Tr (s : St) (r : Res) (s' : St) : Prop where
-  stack : s'.stack = s.stack
-  mono : s.curExc ≤ s'.curExc
-  suffix : ∃ suf, s'.rolledback = s.rolledback ++ suf ∧
-    (∀ e ∈ suf, s.curExc < e.2 ∧ e.2 ≤ s'.curExc) ∧
-    (∀ e, r = .err e →
-      s.curExc < s'.curExc ∧ s'.excStack.take s.stack.length = s.stack ∧
-      chainOf suf s'.curExc = (s'.excStack.drop s.stack.length).reverse)
-
-theorem Tr.of_sameExc {s s' : St} (h : SameExc s s') (v : Val) : Tr s (.ok v) s' :=
-  ⟨h.stack, by rw [h.curExc]; exact Nat.le_refl _,
-   [], by simp [h.rolledback], by simp, by intro e he; cases he⟩
 
 theorem chainOf_append (a b : List (Node × Nat)) (x : Nat) :
     chainOf (a ++ b) x = chainOf a x ++ chainOf b x := by
   simp [chainOf, List.filter_append]
 
-theorem chainOf_old (a : List (Node × Nat)) (x : Nat) (h : ∀ e ∈ a, e.2 < x) : chainOf a x = [] := by
+theorem chainOf_other (a : List (Node × Nat)) (x : Nat) (h : ∀ e ∈ a, e.2 ≠ x) : chainOf a x = [] := by
   unfold chainOf
   rw [List.filter_eq_nil_iff.mpr]
   · rfl
   · intro e he
     have := h e he
-    simp only [beq_iff_eq]; omega
+    simpa using this
 
-/-- sequencing: what happened first only contributes entries of older exceptions -/
-theorem Tr.seq {s s1 s2 : St} {r1 r : Res} (h1 : Tr s r1 s1) (h2 : Tr s1 r s2) : Tr s r s2 := by
-  obtain ⟨suf1, e1, id1, _⟩ := h1.suffix
-  obtain ⟨suf2, e2, id2, c2⟩ := h2.suffix
-  refine ⟨h2.stack.trans h1.stack, Nat.le_trans h1.mono h2.mono, suf1 ++ suf2, ?_, ?_, ?_⟩
-  · rw [e2, e1, List.append_assoc]
+/-- the exception `s'.curExc` was created after `s`, while the stack of `s` was executing, and
+the entries it has in `suf` are the frames above that stack, innermost first -/
+structure Live (s : St) (suf : List (Node × Nat)) (s' : St) : Prop where
+  lt : s.excCount < s'.curExc
+  le : s'.curExc ≤ s'.excCount
+  take : s'.excStack.take s.stack.length = s.stack
+  chain : chainOf suf s'.curExc = (s'.excStack.drop s.stack.length).reverse
+
+structure TrL (live : Bool) (s s' : St) : Prop where
+  stack : s'.stack = s.stack
+  mono : s.excCount ≤ s'.excCount
+  suffix : ∃ suf, s'.rolledback = s.rolledback ++ suf ∧
+    (∀ e ∈ suf, s.excCount < e.2 ∧ e.2 ≤ s'.excCount) ∧ (live = true → Live s suf s')
+
+def isErr : Res → Bool
+  | .err _ => true
+  | .ok _ => false
+
+theorem TrL.refl (s : St) : TrL false s s :=
+  ⟨rfl, Nat.le_refl _, [], by simp, by simp, by intro h; cases h⟩
+
+theorem TrL.weaken {live : Bool} {s s' : St} (h : TrL live s s') : TrL false s s' := by
+  obtain ⟨suf, h1, h2, _⟩ := h.suffix
+  exact ⟨h.stack, h.mono, suf, h1, h2, by intro h; cases h⟩
+
+/-- a step that touches none of the exception bookkeeping -/
+theorem TrL.same {live : Bool} {s0 s s' : St} (h : TrL live s0 s) (hs : SameExc s s') : TrL live s0 s' := by
+  obtain ⟨suf, h1, h2, h3⟩ := h.suffix
+  refine ⟨hs.stack.trans h.stack, by rw [hs.excCount]; exact h.mono, suf, by rw [hs.rolledback]; exact h1, ?_, ?_⟩
+  · intro e he; rw [hs.excCount]; exact h2 e he
+  · intro hl
+    obtain ⟨a, b, c, d⟩ := h3 hl
+    exact ⟨by rw [hs.curExc]; exact a, by rw [hs.curExc, hs.excCount]; exact b, by rw [hs.excStack]; exact c,
+      by rw [hs.curExc, hs.excStack]; exact d⟩
+
+/-- a new exception object is created in the running formula -/
+theorem TrL.newExc {live : Bool} {s0 s : St} (h : TrL live s0 s) : TrL true s0 s.newExc := by
+  obtain ⟨suf, h1, h2, _⟩ := h.suffix
+  refine ⟨h.stack, by simp only [St.newExc]; have := h.mono; omega, suf, h1, ?_, ?_⟩
+  · intro e he; simp only [St.newExc]; have := h2 e he; omega
+  · intro _
+    refine ⟨by simp only [St.newExc]; have := h.mono; omega, Nat.le_refl _, ?_, ?_⟩
+    · simp only [St.newExc]; rw [h.stack]; exact List.take_length
+    · simp only [St.newExc]
+      rw [chainOf_other suf _ (fun e he => by have := h2 e he; omega), h.stack]
+      simp
+
+/-- a callee failed: its exception is the live one -/
+theorem TrL.thenErr {live : Bool} {s0 s s1 : St} (h : TrL live s0 s) (hc : TrL true s s1) : TrL true s0 s1 := by
+  obtain ⟨suf, h1, h2, _⟩ := h.suffix
+  obtain ⟨suf1, g1, g2, g3⟩ := hc.suffix
+  obtain ⟨a, b, c, d⟩ := g3 rfl
+  refine ⟨hc.stack.trans h.stack, Nat.le_trans h.mono hc.mono, suf ++ suf1, by rw [g1, h1, List.append_assoc], ?_, ?_⟩
   · intro e he
     simp only [List.mem_append] at he
     rcases he with he | he
-    · have := id1 e he; have := h2.mono; omega
-    · have := id2 e he; have := h1.mono; omega
-  · intro e he
-    obtain ⟨hlt, htake, hchain⟩ := c2 e he
-    refine ⟨by have := h1.mono; omega, by rw [← h1.stack]; exact htake, ?_⟩
-    rw [chainOf_append, chainOf_old suf1 _ (fun x hx => by have := id1 x hx; omega)]
-    rw [← h1.stack]; simpa using hchain
+    · have := h2 e he; have := hc.mono; omega
+    · have := g2 e he; have := h.mono; omega
+  · intro _
+    refine ⟨by have := h.mono; omega, b, by rw [← h.stack]; exact c, ?_⟩
+    rw [chainOf_append, chainOf_other suf _ (fun e he => by have := h2 e he; omega), ← h.stack]
+    simpa using d
 
-def CalleeTr (f : Node → St → Res × St) : Prop := ∀ n s, Tr s (f n s).1 (f n s).2
+/-- a callee returned and left the caller's exception as it was -/
+theorem TrL.thenOk {live : Bool} {s0 s s1 : St} (h : TrL live s0 s) (hc : TrL false s s1)
+    (hcur : s1.curExc = s.curExc) (hst : s1.excStack = s.excStack) : TrL live s0 s1 := by
+  obtain ⟨suf, h1, h2, h3⟩ := h.suffix
+  obtain ⟨suf1, g1, g2, _⟩ := hc.suffix
+  refine ⟨hc.stack.trans h.stack, Nat.le_trans h.mono hc.mono, suf ++ suf1, by rw [g1, h1, List.append_assoc], ?_, ?_⟩
+  · intro e he
+    simp only [List.mem_append] at he
+    rcases he with he | he
+    · have := h2 e he; have := hc.mono; omega
+    · have := g2 e he; have := h.mono; omega
+  · intro hl
+    obtain ⟨a, b, c, d⟩ := h3 hl
+    refine ⟨by rw [hcur]; exact a, by rw [hcur]; have := hc.mono; omega, by rw [hst]; exact c, ?_⟩
+    rw [hcur, hst, chainOf_append, chainOf_other suf1 _ (fun e he => by have := g2 e he; omega)]
+    simpa using d
+
+/-- contract of `_eval_formula` -/
+def EvalTr (f : Node → St → Res × St) : Prop := ∀ n s, TrL (isErr (f n s).1) s (f n s).2
+
+/-- contract of `eval_node`: additionally, a call that returns leaves the exception alone -/
+def CalleeTr (f : Node → St → Res × St) : Prop :=
+  ∀ n s, TrL (isErr (f n s).1) s (f n s).2 ∧
+    (∀ v, (f n s).1 = .ok v → (f n s).2.curExc = s.curExc ∧ (f n s).2.excStack = s.excStack)
 
 theorem runBody_tr (env : Env) (f : Node → St → Res × St) (hf : CalleeTr f) :
-    ∀ (p : Prog), Proper p → ∀ (s : St), Tr s (runBody env f p s).1 (runBody env f p s).2 := by
+    ∀ (p : Prog) (live : Bool) (s0 s : St), ProperL live p → TrL live s0 s →
+      TrL (isErr (runBody env f p s).1) s0 (runBody env f p s).2 := by
   intro p
   induction p with
-  | ret v => intro _ s; exact Tr.of_sameExc (SameExc.refl s) v
-  | raise e =>
-    intro _ s
-    simp only [runBody]
-    refine ⟨rfl, Nat.le_succ _, [], by simp [St.newExc], by simp, ?_⟩
-    intro e' _
-    exact ⟨Nat.lt_succ_self _, by simp [St.newExc], by simp [St.newExc, chainOf]⟩
-  | reraise e => intro hp; exact absurd hp (by simp [Proper])
+  | ret v => intro live s0 s _ h; exact h.weaken
+  | raise e => intro live s0 s _ h; exact h.newExc
+  | reraise e =>
+    intro live s0 s hp h
+    simp only [ProperL] at hp
+    subst hp
+    exact h
   | read a r k ih =>
-    intro hp s
-    simp only [Proper] at hp
+    intro live s0 s hp h
+    simp only [ProperL] at hp
     simp only [runBody]
-    exact (Tr.of_sameExc (sameExc_noteRead s (a && (env.refs r).isSome) r) .none).seq (ih _ (hp _) _)
+    exact ih _ live s0 _ (hp _) (h.same (sameExc_noteRead s (a && (env.refs r).isSome) r))
   | call n k ih =>
-    intro hp s
-    simp only [Proper] at hp
+    intro live s0 s hp h
+    simp only [ProperL] at hp
     simp only [runBody]
-    have hc := hf n s
+    obtain ⟨hc, hkeep⟩ := hf n s
     cases hr : (f n s).1 with
     | ok v =>
       rw [hr] at hc
-      exact hc.seq (ih _ (hp.1 v) _)
+      obtain ⟨h1, h2⟩ := hkeep v hr
+      exact ih _ live s0 _ (hp.1 v) (h.thenOk hc h1 h2)
     | err e =>
       rw [hr] at hc
-      rcases hp.2 e with hre | hprop
-      · rw [hre]; simpa [runBody] using hc
-      · exact hc.seq (ih _ hprop _)
+      exact ih _ true s0 _ (hp.2 e) (h.thenErr hc)
 
-
-theorem evalNode_tr (env : Env) (ef : Node → St → Res × St) (hef : CalleeTr ef) :
+theorem evalNode_tr (env : Env) (ef : Node → St → Res × St) (hef : EvalTr ef) :
     CalleeTr (evalNode env ef) := by
+  have key : ∀ n s, TrL (isErr (keepExc s (ef n s)).1) s (keepExc s (ef n s)).2 ∧
+      (∀ v, (keepExc s (ef n s)).1 = .ok v →
+        (keepExc s (ef n s)).2.curExc = s.curExc ∧ (keepExc s (ef n s)).2.excStack = s.excStack) := by
+    intro n s
+    have h := hef n s
+    cases hr : (ef n s).1 with
+    | err e => rw [keepExc_err s _ e hr]; exact ⟨h, fun v hv => by rw [hr] at hv; cases hv⟩
+    | ok v =>
+      rw [hr] at h
+      have h2 := keepExc_ok s _ v hr
+      rw [keepExc_fst, hr, h2]
+      obtain ⟨suf, a, b, _⟩ := h.suffix
+      exact ⟨⟨h.stack, h.mono, suf, a, b, by intro hh; cases hh⟩, fun _ _ => ⟨rfl, rfl⟩⟩
   intro n s
   unfold evalNode
   split
   · split
     · split
-      · exact Tr.of_sameExc (sameExc_hitEdge s n) _
-      · exact hef n s
-    · exact hef n s
+      · exact ⟨(TrL.refl s).same (sameExc_hitEdge s n), fun _ _ =>
+          ⟨(sameExc_hitEdge s n).curExc, (sameExc_hitEdge s n).excStack⟩⟩
+      · exact key n s
+    · exact key n s
   · -- the cells does not exist: a new exception in the caller's frame, nothing rolled back
-    refine ⟨rfl, Nat.le_succ _, [], by simp [St.newExc], by simp, ?_⟩
-    intro e' _
-    exact ⟨Nat.lt_succ_self _, by simp [St.newExc], by simp [St.newExc, chainOf]⟩
+    exact ⟨(TrL.refl s).newExc, fun v hv => by cases hv⟩
 
 theorem drop_of_take_snoc {α} (l a : List α) (x : α) (h : l.take (a.length + 1) = a ++ [x]) :
     l.take a.length = a ∧ l.drop a.length = x :: l.drop (a.length + 1) := by
@@ -171,44 +262,43 @@ theorem chainOf_snoc_same (suf : List (Node × Nat)) (n : Node) (c : Nat) :
 /-- all programs of an environment are proper -/
 def ProperEnv (env : Env) : Prop := ∀ n, Proper (env.formula n)
 
-theorem runN_tr (env : Env) (hp : ProperEnv env) : ∀ d, CalleeTr (runN env d) := by
+theorem runN_tr (env : Env) (hp : ProperEnv env) : ∀ d, EvalTr (runN env d) := by
   intro d
   induction d with
   | zero =>
     intro n s
-    simp only [runN]
-    refine ⟨rfl, Nat.le_succ _, [], by simp [St.newExc], by simp, ?_⟩
-    intro e _
-    exact ⟨Nat.lt_succ_self _, by simp [St.newExc], by simp [St.newExc, chainOf]⟩
+    simp only [runN, isErr]
+    exact (TrL.refl s).same (s' := { s with hit := true }) ⟨rfl, rfl, rfl, rfl, rfl⟩ |>.newExc
   | succ d ih =>
     intro n s
-    have hb := runBody_tr env _ (evalNode_tr env _ ih) (env.formula n) (hp n) (s.push env n)
+    have hpush : TrL false (s.push env n) (s.push env n) := TrL.refl _
+    have hb := runBody_tr env _ (evalNode_tr env _ ih) (env.formula n) false _ _ (hp n) hpush
     simp only [runN]
     generalize runBody env (evalNode env (runN env d)) (env.formula n) (s.push env n) = p at hb
     obtain ⟨r, s1⟩ := p
     simp only [] at hb ⊢
     obtain ⟨suf, hsuf, hids, herr⟩ := hb.suffix
     have hstack : s1.stack = s.stack ++ [n] := hb.stack
-    have hmono : s.curExc ≤ s1.curExc := hb.mono
+    have hmono : s.excCount ≤ s1.excCount := hb.mono
     have hrb : s1.rolledback = s.rolledback ++ suf := hsuf
-    have hids' : ∀ e ∈ suf, s.curExc < e.2 ∧ e.2 ≤ s1.curExc := hids
+    have hids' : ∀ e ∈ suf, s.excCount < e.2 ∧ e.2 ≤ s1.excCount := hids
     -- successful completion: nothing is appended
-    have hpop : ∀ s1' : St, SameExc s1 s1' → ∀ v, Tr s (.ok v) (s1'.pop env n) := by
+    have hpop : ∀ s1' : St, SameExc s1 s1' → ∀ v, TrL (isErr (.ok v)) s (s1'.pop env n) := by
       intro s1' hse v
       unfold St.pop
       have h2 := sameExc_popEdge env s1'.dropFrame n
       have h3 := drainSame env (s1'.dropFrame.popEdge env n) n
-      refine ⟨?_, ?_, suf, ?_, ?_, by intro e he; cases he⟩
+      refine ⟨?_, ?_, suf, ?_, ?_, by intro he; cases he⟩
       · rw [h3.stack, h2.stack]; simp [St.dropFrame, hse.stack, hstack]
-      · rw [h3.curExc, h2.curExc]; simp only [St.dropFrame]; rw [hse.curExc]; exact hmono
+      · rw [h3.excCount, h2.excCount]; simp only [St.dropFrame]; rw [hse.excCount]; exact hmono
       · rw [h3.rolledback, h2.rolledback]; simp only [St.dropFrame]; rw [hse.rolledback]; exact hrb
       · intro e he
-        rw [h3.curExc, h2.curExc]; simp only [St.dropFrame]; rw [hse.curExc]; exact hids' e he
+        rw [h3.excCount, h2.excCount]; simp only [St.dropFrame]; rw [hse.excCount]; exact hids' e he
     cases r with
     | err e =>
-      simp only []
-      obtain ⟨hlt, htake, hchain⟩ := herr e rfl
-      simp only [St.push, List.length_append, List.length_singleton] at htake hchain
+      simp only [isErr] at herr ⊢
+      obtain ⟨hlt, hle, htake, hchain⟩ := herr trivial
+      simp only [St.push, List.length_append, List.length_singleton] at htake hchain hlt
       obtain ⟨ht, hd⟩ := drop_of_take_snoc s1.excStack s.stack n htake
       refine ⟨by simp [St.rollback, St.dropFrame, St.removeNode, hstack], by
         simpa [St.rollback, St.dropFrame, St.removeNode] using hmono,
@@ -219,10 +309,10 @@ theorem runN_tr (env : Env) (hp : ProperEnv env) : ∀ d, CalleeTr (runN env d) 
         simp only [St.rollback, St.dropFrame, St.removeNode]
         rcases hx with hx | rfl
         · exact hids' x hx
-        · exact ⟨hlt, Nat.le_refl _⟩
-      · intro e' _
+        · exact ⟨hlt, hle⟩
+      · intro _
         simp only [St.rollback, St.dropFrame, St.removeNode]
-        refine ⟨hlt, ht, ?_⟩
+        refine ⟨hlt, hle, ht, ?_⟩
         rw [chainOf_snoc_same, hchain, hd]
         simp
     | ok v =>
@@ -230,9 +320,10 @@ theorem runN_tr (env : Env) (hp : ProperEnv env) : ∀ d, CalleeTr (runN env d) 
       split
       · split
         · -- NoneReturnedError: a new exception object while `n` is still on the stack
+          simp only [isErr]
           refine ⟨by simp [St.rollback, St.dropFrame, St.removeNode, St.newExc, hstack], by
             simp only [St.rollback, St.dropFrame, St.removeNode, St.newExc]; omega,
-            suf ++ [(n, s1.curExc + 1)], by
+            suf ++ [(n, s1.excCount + 1)], by
               simp [St.rollback, St.dropFrame, St.removeNode, St.newExc, hrb], ?_, ?_⟩
           · intro x hx
             simp only [List.mem_append, List.mem_singleton] at hx
@@ -240,12 +331,12 @@ theorem runN_tr (env : Env) (hp : ProperEnv env) : ∀ d, CalleeTr (runN env d) 
             rcases hx with hx | rfl
             · have := hids' x hx; omega
             · simp only []; omega
-          · intro e' _
+          · intro _
             simp only [St.rollback, St.dropFrame, St.removeNode, St.newExc]
-            refine ⟨by omega, by simp [hstack], ?_⟩
-            rw [chainOf_snoc_same, chainOf_old suf _ (fun x hx => by have := hids' x hx; omega)]
+            refine ⟨by show s.excCount < s1.excCount + 1; omega, Nat.le_refl _, by simp [hstack], ?_⟩
+            rw [chainOf_snoc_same, chainOf_other suf _ (fun x hx => by have := hids' x hx; omega)]
             simp [hstack]
-        · exact hpop { s1 with data := insert s1.data n v } ⟨rfl, rfl, rfl, rfl⟩ v
+        · exact hpop { s1 with data := insert s1.data n v } ⟨rfl, rfl, rfl, rfl, rfl⟩ v
       · exact hpop s1 (SameExc.refl s1) v
 
 end MxModel.Exec
